@@ -1,0 +1,43 @@
+//go:build verif && verif_c20
+
+// Verification hooks for property C20 (reference codecs): thin exported wrappers
+// around the unexported multi-range helpers so that the correspondence harness in
+// /verif can call them in-process. Compiled only with `-tags "verif verif_c20"`;
+// adds code, changes none.
+
+package excelize
+
+// VerifC20FlatSqref exposes flatSqref.
+func VerifC20FlatSqref(sqref string) (map[int][][]int, error) { return flatSqref(sqref) }
+
+// VerifC20SquashSqref exposes squashSqref. The cells are copied into fresh
+// two-element slices, as flatSqref builds them.
+func VerifC20SquashSqref(cells [][2]int) []string {
+	in := make([][]int, 0, len(cells))
+	for _, c := range cells {
+		in = append(in, []int{c[0], c[1]})
+	}
+	return squashSqref(in)
+}
+
+// VerifC20CheckCellInRangeRef exposes (*File).checkCellInRangeRef.
+func VerifC20CheckCellInRangeRef(cell, rangeRef string) (bool, error) {
+	return (&File{}).checkCellInRangeRef(cell, rangeRef)
+}
+
+// VerifC20IsOverlap exposes isOverlap.
+func VerifC20IsOverlap(a, b []int) bool { return isOverlap(a, b) }
+
+// VerifC20MergeCellsParser runs mergeCellsParser on a worksheet whose merged
+// cell references are refs.
+func VerifC20MergeCellsParser(refs []string, cell string) (string, error) {
+	ws := &xlsxWorksheet{}
+	if len(refs) > 0 {
+		ws.MergeCells = &xlsxMergeCells{}
+		for _, r := range refs {
+			ws.MergeCells.Cells = append(ws.MergeCells.Cells, &xlsxMergeCell{Ref: r})
+		}
+		ws.MergeCells.Count = len(refs)
+	}
+	return ws.mergeCellsParser(cell)
+}
